@@ -17,7 +17,7 @@ from lsfsim.runner import run_scenario
 from monitors.basic import NotifyMonitor
 
 PROP = "C01"
-FAMILY_MIX = ["sequential"] * 3 + ["fanout_ok"] * 3 + ["general"] * 3 + ["retry"] + ["fanout_caught"] * 2
+FAMILY_MIX = ["sequential"] * 3 + ["fanout_ok"] * 3 + ["general"] * 3 + ["retry"] + ["fanout_caught"] * 2 + ["timing"]
 
 PROBES = {
     # name -> (definition, input, script)
